@@ -42,6 +42,8 @@ FOCUS = {
     "headings": ["==", "=", "===", "\n", "a", " ", "<pre>", "</pre>", "''", "{{", "}}", "----"],
     # character-level pieces around the tag regexes (token regex and tag_fn's regexes must agree)
     "tagchars": ["<b", "<br", "</b", " a", "=", '"x"', "'y'", "_", ":", "-", "/", ">", "<", "1"],
+    # single braces / brackets around the inside-out encoder's regexes (-{}-, }{, {|..|} inside arguments)
+    "braces": ["{", "}", "{{", "}}", "|", "-{", "}-", "a", "\n", "[", "]", "<nowiki/>", "{|", "|}"],
     "urlchars": ["http://x.y", "https://", "//", "[", "]", " ", "a", ".", ",", "?", "=", "|", "<", "\n"],
 }
 
